@@ -69,7 +69,7 @@ PRESETS = [
 
 
 def plan(tier: str, seed: int):
-    n_per = 11 if tier == "quick" else 160
+    n_per = 11 if tier == "quick" else 640
     cases = []
     for name, over, semirings in PRESETS:
         for k in range(n_per):
